@@ -322,6 +322,22 @@ func main() {
 		fmt.Fprintln(os.Stderr, "harness16: no scenario")
 		os.Exit(2)
 	}
+	if *only == "" {
+		// cheap scenarios get more of the run indices (a run of rdf-c14n costs
+		// ~6 ms, one of dot ~150 ms)
+		weights := map[string]int{"rdf-c14n": 8, "dot-text": 3, "prng-state": 1, "hll-state": 2}
+		var sched []*Scenario
+		for _, s := range scs {
+			w := weights[s.Name]
+			if w == 0 {
+				w = 1
+			}
+			for i := 0; i < w; i++ {
+				sched = append(sched, s)
+			}
+		}
+		scs = sched
+	}
 	if *knownPath != "" {
 		var list []struct{ Property, Signature string }
 		if b, err := os.ReadFile(*knownPath); err == nil && json.Unmarshal(b, &list) == nil {
